@@ -1,15 +1,11 @@
 //! Garbage collection of the harness's own runtime resources.
 //!
-//! Everything this harness creates carries the prefix `hffi_<pid>_`. An execution that ends with
-//! a violation (or a crashed worker) abandons its object graph, and the per-prefix global
-//! management segment of the node layer is persistent by design; stale nodes in the shared
-//! directories slow down every node creation on the machine. So: a worker removes what is left
-//! of its own prefix before it builds the next object graph, and the parent removes the
-//! resources of dead processes when it starts and when it exits.
-
-use std::path::Path;
-
-const DIRS: [&str; 3] = ["/dev/shm", "/tmp/iceoryx2/services", "/tmp/iceoryx2/nodes"];
+//! Everything this harness creates is named `hffi_<pid>_…`: shared memory objects in /dev/shm and
+//! the per-process root directory /dev/shm/hffi_<pid>_root/ (nodes, services). An execution that
+//! ends with a violation (or a crashed worker) abandons its object graph, and the per-prefix
+//! global management segment of the node layer is persistent by design. So: a worker removes
+//! what is left of its own names before it builds the next object graph, and the parent removes
+//! the resources of dead harness processes when it starts and when it exits.
 
 fn pid_of(name: &str) -> Option<u32> {
     name.strip_prefix("hffi_")?.split('_').next()?.parse().ok()
@@ -19,48 +15,25 @@ fn alive(pid: u32) -> bool {
     unsafe { libc::kill(pid as i32, 0) == 0 || *libc::__errno_location() != libc::ESRCH }
 }
 
-fn mine(name: &str, own: Option<u32>, me: u32) -> bool {
-    match pid_of(name) {
-        None => false,
-        Some(p) => match own {
-            Some(o) => p == o,
-            None => p != me && !alive(p),
-        },
-    }
-}
-
-/// `own == Some(pid)`: remove everything with this pid's prefix (the caller knows it is garbage);
+/// `own == Some(pid)`: remove everything named after this pid (the caller knows it is garbage);
 /// `own == None`: remove everything whose creating process no longer exists.
 pub fn collect(own: Option<u32>) {
     let me = std::process::id();
-    for dir in DIRS {
-        let Ok(rd) = std::fs::read_dir(dir) else { continue };
-        for e in rd.flatten() {
-            let n = e.file_name().to_string_lossy().into_owned();
-            let p = e.path();
-            if n.starts_with("hffi_") {
-                if mine(&n, own, me) {
-                    let _ = std::fs::remove_file(&p);
-                }
-            } else if dir.ends_with("nodes") && e.file_type().map(|t| t.is_dir()).unwrap_or(false) {
-                collect_node_dir(&p, own, me);
-            }
-        }
-    }
-}
-
-fn collect_node_dir(dir: &Path, own: Option<u32>, me: u32) {
-    let Ok(rd) = std::fs::read_dir(dir) else { return };
-    let mut removed = false;
+    let Ok(rd) = std::fs::read_dir("/dev/shm") else { return };
     for e in rd.flatten() {
         let n = e.file_name().to_string_lossy().into_owned();
-        if n.starts_with("hffi_") && mine(&n, own, me) {
-            let _ = std::fs::remove_file(e.path());
-            removed = true;
+        let Some(p) = pid_of(&n) else { continue };
+        let garbage = match own {
+            Some(o) => p == o,
+            None => p != me && !alive(p),
+        };
+        if garbage {
+            if e.file_type().map(|t| t.is_dir()).unwrap_or(false) {
+                let _ = std::fs::remove_dir_all(e.path());
+            } else {
+                let _ = std::fs::remove_file(e.path());
+            }
         }
-    }
-    if removed {
-        let _ = std::fs::remove_dir(dir);
     }
 }
 
@@ -69,7 +42,7 @@ extern "C" fn at_exit() {
     collect(Some(std::process::id()));
 }
 
-/// Parent / replay processes: collect the dead now and again (plus the own prefix) at exit.
+/// Parent / replay processes: collect the dead now and again (plus the own names) at exit.
 pub fn install() {
     collect(None);
     unsafe {
